@@ -1,6 +1,6 @@
-(* C13 — Native lax functor path: refusal, definedness, witness. The agreement-with-the-strict-path clause (Iso after quotient) is decided by the correspondence check and the Iso checker on implementation outputs, not by a theorem (see DESIGN.md).
+(* C13 — Native lax functor path agrees with the strict path; witness is correct.
    Property theorems only: each statement is spelled out and closed by [exact] of a lemma proved in Proofs/. *)
-From OHG Require Import Spec.Plain Proofs.C13Thm.
+From OHG Require Import Spec.Plain Proofs.C13Thm Proofs.C13bLemmas Proofs.C13bThm Proofs.C13bAny Proofs.HarnessThm.
 
 Theorem C13_refuses : forall (O1 A1 O2 A2 : Type) (F : lfunctor O1 A1 O2 A2) (f : lohg O1 A1),
        fst (l_q (lo_h f)) <> [] -> l_try_define_map_arrow F f = Ok None /\ l_map_arrow_witness F f = Ok None.
@@ -108,9 +108,87 @@ Theorem C13_pending : forall (O1 A1 O2 A2 : Type) (F : lfunctor O1 A1 O2 A2) (f 
          (map (fun x : nat => x + N) (seq 0 n ++ SegThm.inj_table sizes all_t)).
 Proof. exact (@C13Thm.C13_pending). Qed.
 
+Theorem C13_native_quotient : forall B : Backend,
+       BackendOK B ->
+       forall (O1 A1 O2 A2 : Type) (eqO2 : O2 -> O2 -> bool),
+       (forall x y : O2, eqO2 x y = true <-> x = y) ->
+       forall F : lfunctor O1 A1 O2 A2,
+       F_wf F ->
+       F_src_tgt F ->
+       forall f : lohg O1 A1,
+       C09Thm.lwf f ->
+       C10Lemmas.ladj_ok f ->
+       let r := result_pure F f in
+       exists (r' : lohg O2 A2) (q : ff),
+         lohg_quotient B eqO2 r = Ok (r', inl q) /\
+         labs r = pjoin (pjoin (Psx F f) (PM F f)) (Pyt F f) /\
+         pending r =
+         QuotThm.shift_pairs (length (Wf F f)) (QuotThm.shift_pairs (length (Wf F f)) (pending (fxl F f))) ++
+         glue_pairs (Psx F f) (PM F f) ++ glue_pairs (pjoin (Psx F f) (PM F f)) (Pyt F f) /\
+         IsQuot (labs r) (C09Thm.app q) (labs r') /\
+         QuotThm.KerIs (C09Thm.nn r) (C09Thm.app q) (pending r) /\ C09Thm.lwf r' /\ pending r' = [].
+Proof. exact (@C13bThm.C13_native_quotient). Qed.
+
+Theorem C13_agrees : C13_agrees_any_backend_full.
+Proof. exact (@C13bAny.C13_agrees_any_backend). Qed.
+
+Theorem C13_agrees_canonical : C13_agrees_full.
+Proof. exact (@C13bThm.C13_agrees). Qed.
+
+Theorem C13_witness_interfaces : forall B : Backend,
+       BackendOK B ->
+       forall (O1 A1 O2 A2 : Type) (eqO2 : O2 -> O2 -> bool),
+       (forall x y : O2, eqO2 x y = true <-> x = y) ->
+       forall F : lfunctor O1 A1 O2 A2,
+       F_wf F ->
+       F_src_tgt F ->
+       forall f : lohg O1 A1,
+       C09Thm.lwf f ->
+       C10Lemmas.ladj_ok f ->
+       pending f = [] ->
+       forall (r : lohg O2 A2) (w : icf) (r' : lohg O2 A2) (q : ff),
+       l_map_arrow_witness F f = Ok (Some (r, w)) ->
+       lohg_quotient B eqO2 r = Ok (r', inl q) ->
+       map (C09Thm.app q) (flat_map (fun i : nat => nth i (decode_f w) []) (lo_sources f)) = lo_sources r' /\
+       map (C09Thm.app q) (flat_map (fun i : nat => nth i (decode_f w) []) (lo_targets f)) = lo_targets r'.
+Proof. exact (@C13bThm.C13_witness_interfaces). Qed.
+
+Theorem C13_witness_defined : forall B : Backend,
+       BackendOK B ->
+       forall (O1 A1 O2 A2 : Type) (eqO2 : O2 -> O2 -> bool),
+       (forall x y : O2, eqO2 x y = true <-> x = y) ->
+       forall F : lfunctor O1 A1 O2 A2,
+       F_wf F ->
+       F_src_tgt F ->
+       forall f : lohg O1 A1,
+       C09Thm.lwf f ->
+       C10Lemmas.ladj_ok f ->
+       pending f = [] ->
+       exists (r : lohg O2 A2) (w : icf) (r' : lohg O2 A2) (q : ff),
+         l_map_arrow_witness F f = Ok (Some (r, w)) /\
+         lohg_quotient B eqO2 r = Ok (r', inl q) /\
+         map (C09Thm.app q) (flat_map (fun i : nat => nth i (decode_f w) []) (lo_sources f)) = lo_sources r' /\
+         map (C09Thm.app q) (flat_map (fun i : nat => nth i (decode_f w) []) (lo_targets f)) = lo_targets r'.
+Proof. exact (@C13bThm.C13_witness_defined). Qed.
+
+Theorem C13_test_functors_meet_contract : forall (F : Dispatch.ftable) (a : nat) (s t : list nat),
+       let g := lf_map_operation (Dispatch.tf_functor F) a s t in
+       C09Thm.lwf g /\
+       C10Lemmas.ladj_ok g /\
+       C09Thm.labels_consistent g /\
+       lohg_source g = Ok (flat_map (lf_map_object (Dispatch.tf_functor F)) s) /\
+       lohg_target g = Ok (flat_map (lf_map_object (Dispatch.tf_functor F)) t).
+Proof. exact (@HarnessThm.tf_functor_contract). Qed.
+
 Print Assumptions C13_refuses.
 Print Assumptions C13_defined.
 Print Assumptions C13_value.
 Print Assumptions C13_witness.
 Print Assumptions C13_witness_labels.
 Print Assumptions C13_pending.
+Print Assumptions C13_native_quotient.
+Print Assumptions C13_agrees.
+Print Assumptions C13_agrees_canonical.
+Print Assumptions C13_witness_interfaces.
+Print Assumptions C13_witness_defined.
+Print Assumptions C13_test_functors_meet_contract.
